@@ -1,4 +1,6 @@
 import NdnProofs.Props.C12
+import NdnProofs.Props.C12Tables
+import NdnProofs.Props.C11Tables
 #print axioms Ndn.C12.check_iff
 #print axioms Ndn.C12.check_true_sound
 #print axioms Ndn.C12.check_total
@@ -6,3 +8,9 @@ import NdnProofs.Props.C12
 #print axioms Ndn.C12.check_key_must_match_alone
 #print axioms Ndn.C12.check_ignores_implicit_digest
 #print axioms Ndn.C12.check_iff_compiled
+#print axioms Ndn.C12.check_digest_table
+#print axioms Ndn.C12.check_loops_table
+#print axioms Ndn.C12.checker_excepts_table
+#print axioms Ndn.C12.fix_signing_table
+#print axioms Ndn.C11.matcher_tests_table
+#print axioms Ndn.C11.generate_node_table
